@@ -115,3 +115,36 @@ def lsq_param_errors(resid_fn, params, absolute_sigma, h=1e-6):
     if not absolute_sigma:
         cov = cov * (r0 @ r0) / (len(r0) - len(p0))
     return np.sqrt(np.diag(cov))
+
+
+# the 8 symmetries of a rectangle acting on a scene: flips first, then (names starting with 't') the transposition,
+# which swaps the image orientation (wide <-> tall).  Identity first (simplest first).
+FRAMES = ['id', 'fx', 'fy', 'r180', 't', 'tfx', 'tfy', 'tr180']
+
+
+def frame_shape(frame, shape):
+    """Image shape (ny, nx) after the symmetry ``frame``."""
+    return (shape[1], shape[0]) if frame.startswith('t') else (shape[0], shape[1])
+
+
+def frame_point(frame, x, y, shape):
+    """Pixel coordinates of the point (x, y) of an image of ``shape`` = (ny, nx) after the symmetry."""
+    ny, nx = shape
+    flip = frame[1:] if frame.startswith('t') else frame
+    if flip in ('fx', 'r180'):
+        x = (nx - 1) - x
+    if flip in ('fy', 'r180'):
+        y = (ny - 1) - y
+    return (y, x) if frame.startswith('t') else (x, y)
+
+
+def frame_array(frame, a):
+    """The image array after the symmetry (``a_new[y_new, x_new] == a[y, x]``)."""
+    flip = frame[1:] if frame.startswith('t') else frame
+    if flip in ('fx', 'r180'):
+        a = a[:, ::-1]
+    if flip in ('fy', 'r180'):
+        a = a[::-1, :]
+    if frame.startswith('t'):
+        a = a.T
+    return np.ascontiguousarray(a)
